@@ -115,6 +115,51 @@ impl Sub for Repeat {
     }
 }
 
+/// keygen(seed) in a fresh process, and in a fresh process that first generated a key of the OTHER
+/// variant, must agree with each other and with this process: the result may depend on nothing but
+/// the seed, in particular not on which parameter set the process used first.
+pub struct ProcessHistory;
+
+impl Sub for ProcessHistory {
+    type Case = RepeatCase;
+    fn name(&self) -> &'static str {
+        "keygen_process_history"
+    }
+    fn max_shrink_iters(&self) -> u32 {
+        2
+    }
+    fn batch(&self) -> usize {
+        1
+    }
+    fn strategy(&self, _env: &Env) -> BoxedStrategy<RepeatCase> {
+        (prop_oneof![3 => Just(512usize), 1 => Just(1024usize)], any::<[u8; 32]>()).prop_map(|(n, s)| RepeatCase { n, seed: seed_hex(&s), rejected_candidates: 0 }).boxed()
+    }
+    fn check(&self, c: &RepeatCase, st: &mut Stats) -> Result<(), Fail> {
+        let seed = seed_from(&c.seed).ok_or_else(|| Fail::new("harness:bad-replay", "seed must be 32 bytes"))?;
+        let n = c.n;
+        let other = if n == 512 { 1024 } else { 512 };
+        let parse = |lines: Vec<String>| -> Result<(Vec<u8>, Vec<u8>), Fail> {
+            let parts: Vec<&str> = lines.first().map(|l| l.split_whitespace().collect()).unwrap_or_default();
+            if parts.len() != 2 {
+                return Err(Fail::new("harness:child", "child printed no key"));
+            }
+            Ok((unhex(parts[0]).unwrap_or_default(), unhex(parts[1]).unwrap_or_default()))
+        };
+        let fresh = parse(run_child(&["keygen".into(), n.to_string(), hex(&seed)]).map_err(|e| Fail::new("harness:child", e))?)?;
+        let after = parse(run_child(&["keygen-after".into(), n.to_string(), hex(&seed), other.to_string()]).map_err(|e| Fail::new("harness:child", e))?)?;
+        ensure!(fresh == after, "keygen:process-history", "Falcon-{} key of seed {}: a fresh process and a process that first generated a Falcon-{} key return different bytes", n, hex(&seed), other);
+        let here = api::key(n, seed);
+        ensure!(fresh.0 == here.sk_bytes && fresh.1 == here.pk_bytes, "keygen:process-history", "Falcon-{} key of seed {}: a fresh process and this process (which has generated keys of both variants) return different bytes", n, hex(&seed));
+        let (f, g, _, _) = here.sk.fg();
+        let max_fg = f.iter().chain(g.iter()).map(|x| x.abs()).max().unwrap_or(0);
+        st.range(&format!("process_history_max_abs_f_g_{}", n), max_fg as f64);
+        st.count(&format!("process_history_comparisons_{}", n));
+        st.nontrivial(&(n, seed, "process"));
+        st.sample("process_history", || json!({"n": n, "seed": hex(&seed), "max_abs_fg": max_fg}));
+        Ok(())
+    }
+}
+
 /// Number of candidates (f, g) the key generator's loop rejects with its cheap tests (range,
 /// invertibility of f, Gram-Schmidt norm) before the first one that passes them; replayed through
 /// the hooks. Only selects inputs.
@@ -359,7 +404,7 @@ impl Sub for History {
 }
 
 const META: Meta = Meta {
-    rule: "(1) bit flips: every one of the 256 seed bits of at least one Falcon-512 seed (enumerated) and generated (seed, bit) pairs for both variants: keygen(seed xor e_i) must differ from keygen(seed) as bytes; (2) histories of 5-9 steps over two random seeds per variant plus a degenerate seed (all-zero / all-0xFF), interpreted against a model map seed -> bytes of the first generation: Keygen (same thread), KeygenInThread (fresh thread), KeygenConcurrently (two threads at once), KeygenInChild (the harness re-executes itself), Sign (interleaved signing with a live key); every later generation of a seed must reproduce the first bytes; (3) repeated generation (twice in one thread, once in a fresh thread) of generated seeds and of the committed slow seeds - seeds on which the key generator rejects 60-200 candidates before accepting one, found by replaying its candidate loop through the hooks (`fvh hunt-c15`). Non-trivial = a bit flip, or a history with a re-generation in another thread/process or after an interleaved sign; distinct by hash.",
+    rule: "(1) bit flips: every one of the 256 seed bits of at least one Falcon-512 seed (enumerated) and generated (seed, bit) pairs for both variants: keygen(seed xor e_i) must differ from keygen(seed) as bytes; (2) histories of 5-9 steps over two random seeds per variant plus a degenerate seed (all-zero / all-0xFF), interpreted against a model map seed -> bytes of the first generation: Keygen (same thread), KeygenInThread (fresh thread), KeygenConcurrently (two threads at once), KeygenInChild (the harness re-executes itself), Sign (interleaved signing with a live key); every later generation of a seed must reproduce the first bytes; (3) repeated generation (twice in one thread, once in a fresh thread) of generated seeds and of the committed slow seeds - seeds on which the key generator rejects 60-200 candidates before accepting one, found by replaying its candidate loop through the hooks (`fvh hunt-c15`); (4) process history: the key of a seed generated in a fresh process, in a fresh process that first generated a key of the other variant, and in this process must agree (generated seeds plus committed seeds whose f, g come close to the other variant's coefficient limit). Non-trivial = a bit flip, or a history with a re-generation in another thread/process or after an interleaved sign; distinct by hash.",
     assumptions: &[
         "'depends on nothing but the seed' is tested against the influences the harness can vary: thread, process, call history, prior signing; not the machine",
         "schedules are exercised by real threads, not enumerated (key generation has no shared mutable state)",
@@ -368,7 +413,7 @@ const META: Meta = Meta {
 
 pub fn run(env: &Env, replay: Option<&Path>) -> i32 {
     let mut report = Report::new();
-    let subs: [&dyn DynSub; 3] = [&BitFlip, &History, &Repeat];
+    let subs: [&dyn DynSub; 4] = [&BitFlip, &History, &Repeat, &ProcessHistory];
     if let Some(p) = replay {
         if let Err(e) = replay_file(env, &subs, p, &mut report) {
             eprintln!("harness: {}", e);
@@ -378,9 +423,9 @@ pub fn run(env: &Env, replay: Option<&Path>) -> i32 {
     }
     replay_corpus(env, &subs, &mut report);
     // all 256 bit positions of some seeds (complete over the bit index)
-    let (s512, s1024_bits) = env.tier.pick((1usize, 16usize), (4, 256));
+    let (s512, s1024_bits) = env.tier.pick((1usize, 12usize), (4, 256));
     let seeds512 = api::seed_list(env.seed, 0xC15, s512);
-    let seeds1024 = api::seed_list(env.seed, 0xC15_1024, env.tier.pick(3, 2));
+    let seeds1024 = api::seed_list(env.seed, 0xC15_1024, 2);
     let mut flips: Vec<FlipCase> = vec![];
     for s in &seeds512 {
         for bit in 0..256 {
@@ -396,10 +441,33 @@ pub fn run(env: &Env, replay: Option<&Path>) -> i32 {
     // interleave so that the expensive 1024 cases are spread over the workers
     flips.sort_by_key(|f| mix(f.bit as u64 * 7 + f.n as u64));
     drive_enumerated(env, &BitFlip, flips.into_iter(), &mut report);
-    drive(env, &History, env.tier.pick(16, 128), &mut report);
-    drive(env, &Repeat, env.tier.pick(16, 400), &mut report);
+    drive(env, &History, env.tier.pick(12, 128), &mut report);
+    drive(env, &Repeat, env.tier.pick(8, 400), &mut report);
+    drive(env, &ProcessHistory, env.tier.pick(6, 200), &mut report);
     let covered: Vec<usize> = (0..256).filter(|b| report.stats.counters.contains_key(&format!("bit_position_covered_{:03}", b))).collect();
     report.extra.insert("seed_bit_positions_covered".into(), json!(covered.len()));
     report.stats.counters.retain(|k, _| !k.starts_with("bit_position_covered_"));
     finish(env, report, &META)
+}
+
+/// `fvh hunt-fgmax <n> <first> <count> <min>`: seeds whose key has max |f_i|, |g_i| >= min.
+pub fn hunt_fgmax(n: usize, first: u64, count: u64, min: i64) {
+    let next = std::sync::atomic::AtomicU64::new(0);
+    std::thread::scope(|sc| {
+        for _ in 0..16 {
+            sc.spawn(|| loop {
+                let i = next.fetch_add(1, std::sync::atomic::Ordering::Relaxed);
+                if i >= count {
+                    break;
+                }
+                let seed = crate::util::seed32(0xF6_0000_0000 + first + i);
+                let (sk, _) = api::keygen(n, seed);
+                let (f, g, _, _) = sk.fg();
+                let m = f.iter().chain(g.iter()).map(|x| x.abs()).max().unwrap_or(0);
+                if m >= min {
+                    println!("{} {} {}", n, hex(&seed), m);
+                }
+            });
+        }
+    });
 }
